@@ -66,6 +66,37 @@ def check(run, prog, tier):
     run.rule("C09-L", "the accessors read the component dictionaries the way the builders write them (keys, list by position), "
                       "and copying the components of a function into itself terminates", minimum=4)
     rule_L(run, prog)
+    run.rule("C09-M", "a temperature (or any other optional argument) given explicitly to a method of a bath function replaces the "
+                      "value held in the components; only the None default leaves them as they are", minimum=3)
+    rule_M(run, prog)
+
+
+def rule_M(run, prog):
+    """'... carry consistent parameters': get_FTCorrelationFunction(temperature=T), get_CorrelationFunction(temperature=T),
+    the even and odd Fourier parts built for a temperature: inside `if <argument> is not None:` the argument is the value
+    used - written over what the component holds, not offered as a default to it."""
+    rid = "C09-M"
+    n = 0
+    from .. import sentinel
+    mods = (CF[:-1], SD[:-1], "quantarhei.qm.corfunctions.cfmatrix", "quantarhei.core.dfunction")
+    for q in mods:
+        prog.module(q)
+    for f in list(prog.all_functions()):
+        if f.module.name not in mods:
+            continue
+        if True:
+            for p_ in sentinel.none_default_params(f.node):
+                blocks, bad = sentinel.yielding_uses(f.node, p_)
+                for b_ in blocks:
+                    n += 1
+                    mine = [(c, w) for c, w in bad if b_.lineno <= c.lineno <= (b_.end_lineno or b_.lineno)]
+                    prog.consulted.add(f.relpath)
+                    run.obligation(rid, f.short, not mine, key="explicit:%s" % p_,
+                                   message="%s is given `%s` explicitly, but %s: the result belongs to the stored value, not to the "
+                                           "one asked for" % (f.short, p_, mine[0][1] if mine else ""),
+                                   loc=f.loc(mine[0][0] if mine else b_), sample={"parameter": p_, "block_line": b_.lineno})
+    if n < 3:
+        raise AnalysisError("C09-M: only %d blocks `if <argument> is not None` found in the bath-function modules" % n)
 
 
 def rule_L(run, prog):
